@@ -18,7 +18,7 @@ REG_POOL = [0, 1, 0xFFFFFFFFFFFFFFFF, 0x8000000000000000, 0x7FFFFFFFFFFFFFFF, 0x
 
 RULE = ("Hypothesis generates switch scripts: 2-8 contexts (index 0 = the driving pthread) with stack sizes from {1 KiB .. 1 MiB, odd sizes, non-multiples of 16 and of the page size}, "
         "1-40 switches whose targets are any other context (A->B->A, chains, switching into fresh contexts, back to the thread), about one switch in seven made with 1-40 further 4 KiB "
-        "pattern-filled frames live on the stack (clamped to the stack size for fixed stacks; a split stack is then suspended on a later segment than it was created with), six generated 64-bit values per switch planted into "
+        "pattern-filled frames live on the stack (clamped to the stack size for fixed stacks; a split stack is then suspended on a later segment than it was created with), context objects placed in zeroed or in pattern-filled memory, six generated 64-bit values per switch planted into "
         "rbx, rbp, r12-r15 by an assembly shim, and optionally a second pthread that resumes the contexts the first one suspended; every script runs on all six builds of "
         "fiber_context.c (split|mmap|malloc stacks x assembly|ucontext switching). Oracle: registers, rsp and a 16-word stack frame on resumption equal those at suspension; a fresh "
         "context gets its argument in rdi, rsp = 8 (mod 16) at entry and inside its own stack; stacks pairwise disjoint; destroy releases each stack "
@@ -43,7 +43,8 @@ def script(draw, tier):
         steps.append((tgt, regs, depth))
         cur = tgt
     phase2 = draw(st.one_of(st.none(), st.integers(1, n))) if n >= 2 else None
-    return {"nctx": nctx, "sizes": sizes, "steps": steps, "phase2": phase2}
+    dirty = draw(st.sampled_from([0, 0, 0, 0xA5, 0xFF, 0x01]))
+    return {"nctx": nctx, "sizes": sizes, "steps": steps, "phase2": phase2, "dirty": dirty}
 
 
 def render(sc):
@@ -52,6 +53,8 @@ def render(sc):
         lines.append("size %d %d" % (i + 1, s))
     if sc["phase2"] is not None:
         lines.append("phase2 %d" % sc["phase2"])
+    if sc.get("dirty"):
+        lines.append("dirty %d" % sc["dirty"])
     for i, (tgt, regs, depth) in enumerate(sc["steps"]):
         lines.append("step %d %s" % (tgt, " ".join("%x" % r for r in regs)))
         if depth:
@@ -105,6 +108,8 @@ def custom(prop, tier, seed_value, write_evidence, save_replay, spec):
         futs = {v: pool.submit(run_variant, v, text, workdir) for v in VARIANTS}
         cls = "two_pthreads" if sc["phase2"] is not None else "one_pthread"
         stats["classes"][cls] = stats["classes"].get(cls, 0) + 1
+        if sc.get("dirty"):
+            stats["classes"]["context_objects_in_dirty_memory"] = stats["classes"].get("context_objects_in_dirty_memory", 0) + 1
         if any(s < 4096 for s in sc["sizes"]):
             stats["classes"]["tiny_stack"] = stats["classes"].get("tiny_stack", 0) + 1
         for v, fu in futs.items():
@@ -131,7 +136,7 @@ def custom(prop, tier, seed_value, write_evidence, save_replay, spec):
     violations = []
     # regression tier
     import glob
-    for path in sorted(glob.glob(os.path.join(common.VERIF, "replays", prop, "*.json"))):
+    for path in sorted(glob.glob(os.path.join(common.OUT, "replays", prop, "*.json"))):
         ok, _ = replay(json.load(open(path)), quiet=True)
         if ok:
             violations.append(path)
@@ -139,7 +144,7 @@ def custom(prop, tier, seed_value, write_evidence, save_replay, spec):
         test()
     except Found:
         fl = state["fail"]
-        d = os.path.join(common.VERIF, "replays", prop)
+        d = os.path.join(common.OUT, "replays", prop)
         os.makedirs(d, exist_ok=True)
         h = hashlib.sha1((fl["text"] + fl["variant"]).encode()).hexdigest()[:12]
         path = os.path.join(d, h + ".json")
